@@ -126,8 +126,10 @@ def GenerateRxnNet(initial_reactant, reaction_rules):
                         atoms.UpdatePropertyCache(strict=False)
                     Chem.AssignRadicals(mol)
                     # products carry no ring information; a rule whose pattern
-                    # uses a ring primitive (@, R, r) needs it
-                    Chem.FastFindRings(mol)
+                    # uses a ring primitive (@, R, r) needs it.  The ring
+                    # counts and ring sizes of SMARTS are defined over the
+                    # SSSR (FastFindRings is not enough for fused rings).
+                    Chem.GetSymmSSSR(mol)
                     # Remove molecule with atoms with over valence
                 for i in range(len(products)-1, -1, -1):
                     for atoms in products[i].GetAtoms():
